@@ -226,6 +226,11 @@ def check_case(case):
                 if op[1] in vs or op[1] in known:
                     raise Reject()
                 verdict = 'any'
+            elif k == 'values':
+                # documented: the replacement is a scalar or a 2-D array "with identical dimensions to `values`"
+                value = CO.dec_operand(op[1])
+                if isinstance(value, np.ndarray) and value.shape != (len(CO.value_names(obj)), n):
+                    verdict = 'reject-bulk'
         except Reject as r:
             verdict = 'reject' if r.reason == 'fit' else 'reject-value'
 
@@ -260,6 +265,11 @@ def check_case(case):
                 d = snapshot.first_diff_key(before, snapshot.snapshot(obj))
                 if d:
                     res.fail(f'failed-assignment-changed-state/op={k}/operand={oc}', f'{detail}: raised {out.exc_name} but changed {d}')
+        elif verdict == 'reject-bulk':
+            nontrivial = True
+            if out.ok:
+                res.fail(f'accepted-unfit/op={k}/operand={oc}', f'{detail}: succeeded although the array has shape '
+                         f'{CO.dec_operand(op[1]).shape}, `values` has {(len(CO.value_names(obj)), n)}')
         elif verdict == 'reject-value':
             if out.ok:
                 res.fail(f'accepted-unconvertible/op={k}/operand={oc}', f'{detail}: succeeded although an element cannot be converted')
@@ -331,6 +341,97 @@ def check_case(case):
     return res
 
 
+# -- construction: a variable given to the constructor is created as add_variable would create it --------------------
+
+
+def check_construction(case):
+    """Models / linkers built with a default dtype, a default value and initial values: every class variable is the series
+    `add_variable(name, initial value or default value, dtype=...)` creates (the dtype it is created with includes the
+    width of a string dtype), or construction raises when that series cannot be made."""
+    import fsic
+    kind = case['kind']
+    span = spans.build(case['span'])
+    n = len(span)
+    dtype = CO.DTYPES[case.get('dtype')]
+    kw = {}
+    if 'dtype' in case and case['dtype'] is not None:
+        kw['dtype'] = dtype
+    if 'default' in case:
+        kw['default_value'] = CO.dec_scalar(case['default'])
+    init = {nm: CO.dec_operand(o) for nm, o in (case.get('init') or {}).items()}
+
+    class M(fsic.BaseModel):
+        ENDOGENOUS = ['X']
+        EXOGENOUS = ['Y', 'Z']
+        NAMES = ENDOGENOUS + EXOGENOUS
+        CHECK = ENDOGENOUS
+
+    class Sub(fsic.BaseModel):
+        ENDOGENOUS = ['A']
+        NAMES = ENDOGENOUS
+        CHECK = ENDOGENOUS
+
+    class L(fsic.BaseLinker):
+        ENDOGENOUS = ['X']
+        EXOGENOUS = ['Y', 'Z']
+        NAMES = ENDOGENOUS + EXOGENOUS
+        CHECK = ENDOGENOUS
+    from ..util import attempt
+    if kind == 'model':
+        made = attempt(lambda: M(span, **kw, **init))
+    else:
+        made = attempt(lambda: L({'a': Sub(span)}, **kw, **init))
+    res = Result(classes=['construction', 'object:' + kind, 'dtype:' + str(case.get('dtype'))])
+    res.nontrivial = bool(init) and case.get('dtype') is not None
+    detail = f'{kind}(span {list(span)!r}, {kw}, ' + ', '.join(f'{k}={v!r}' for k, v in init.items()) + ')'
+    default = kw.get('default_value', 0.0)
+    eff_dtype = dtype if kw.get('dtype') is not None else float
+    want = {}
+    unfit = None
+    for nm in ('X', 'Y', 'Z'):
+        try:
+            want[nm] = rule_add(init.get(nm, default), eff_dtype, n)
+        except Reject:
+            unfit = nm
+    if unfit:
+        if made.ok:
+            res.fail('construction/accepted-unfit', f'{detail}: succeeded although {unfit} cannot be made a series of {n} period(s)')
+        return res
+    if not made.ok:
+        res.fail(f'construction/raised-{made.exc_name}', f'{detail}: {made!r}; add_variable would create {want}')
+        return res
+    obj = made.value
+    for nm, arr in want.items():
+        got = obj.__dict__.get('_' + nm)
+        if not isinstance(got, np.ndarray) or got.shape != arr.shape:
+            res.fail('construction/shape', f'{detail}: {nm} is {got!r}')
+        elif got.dtype != arr.dtype:
+            res.fail(f'construction/dtype/{arr.dtype.kind}', f'{detail}: {nm} has dtype {got.dtype}, add_variable gives {arr.dtype}')
+        elif not same_array(got, arr):
+            res.fail('construction/contents', f'{detail}: {nm} = {got!r}, expected {arr!r}')
+    return res
+
+
+def gen_construction():
+    def gen():
+        defaults = [None, {'s': '-'}, {'s': 'abcdef'}, 7, True, 2.5, 'nan']
+        for kind in ('model', 'linker'):
+            for desc in SPANS[:2]:
+                n = len(spans.labels(desc))
+                inits = [{}, {'X': {'scalar': {'s': 'low'}}}, {'X': {'list': [{'s': 'low'}, {'s': 'middle'}, {'s': 'hi'}][:n]}},
+                         {'Y': {'np': ['longer'] * n, 'dtype': 'str'}}, {'X': {'list': [1] * n}, 'Z': {'scalar': 2.5}},
+                         {'X': {'np': [1.5] * n, 'dtype': 'float'}}, {'Z': {'list': [1] * (n + 1)}}, {'X': {'tuple': [2.5] * n}},
+                         {'Y': {'scalar': True}}, {'X': {'nested': [[1] * n]}}, {'X': {'range': n}}]
+                for dt in (None, 'float', 'int', 'bool', 'str', 'U2'):
+                    for d in defaults:
+                        for init in inits:
+                            case = {'kind': kind, 'span': desc, 'dtype': dt, 'init': init}
+                            if d is not None:
+                                case['default'] = d
+                            yield case
+    return gen
+
+
 SPANS = [{'k': 'range', 'start': 3, 'n': 3, 'step': 1}, {'k': 'list', 'items': ['a', 'b']},
          {'k': 'range', 'start': 0, 'n': 1, 'step': 1}, {'k': 'list', 'items': [2000, 2001, 2002, 2003]},
          {'k': 'list', 'items': ['a', 0, 2.5, {'t': [1, 2]}, -1]}]
@@ -354,6 +455,8 @@ def reduced_ops(n):
         out.append(['setslice', s, None, 1, None, {'list': [1, 2]}])
     out += [['add_variable', ['new', 'W'], {'scalar': 1}, d] for d in ('float', 'int', 'bool', 'str', 'U2')]
     out += [['values', {'scalar': 4}], ['values', {'np': [[1.0] * n] * 4, 'dtype': 'float'}], ['values', {'np': [[1.0] * n] * 2, 'dtype': 'float'}],
+            # the right number of rows (2 / 3 / 4 variables) with one column, or one column too few / too many
+            *[['values', {'np': [[float(r)] * c for r in range(rows)], 'dtype': 'float'}] for rows in (2, 3, 4) for c in (1, max(n - 1, 2), n + 1)],
             ['strict', True], ['strict', False], ['strict', True, 1], ['strict', True, 2], ['add_attribute', 'note', 1], ['add_attribute', 'X', 1], ['add_attribute', 'span', 1],
             ['setlabel', ['new', 'attributes'], 0, {'scalar': 5}], ['setlabel', ['new', 'strict'], 0, {'scalar': 5}],
             ['replace_values', [[['var', 0], {'scalar': 1}], [['var', 1], {'list': [1]}]]],
@@ -410,5 +513,6 @@ def phases(tier):
     quick = tier == 'quick'
     return [
         Phase('singles-and-pairs', check_case, gen=gen_singles_and_pairs(True), exhaustive=True),
+        Phase('construction', check_construction, gen=gen_construction(), exhaustive=True),
         Phase('histories', check_case, strategy=strategy, examples=3000 if quick else 80000),
     ]
